@@ -1,1 +1,3 @@
 pub mod build;
+pub mod corpus;
+pub mod hdr;
